@@ -26,6 +26,8 @@ def reaching_defs(body, local, bb, idx):
                 return (b, k, st['k'], st)
         return None
     def visit_pred_of(b):
+        if b == 0:
+            out.append((0, 'entry', 'entry', None))
         for p in body.pred(b):
             if p in seen:
                 continue
@@ -92,6 +94,13 @@ def provenance(body, operand_or_place, bb, idx, through=DEFAULT_THROUGH, depth=4
             return [Root('param', body.name_of(local), fields, (bb, idx))]
         return [Root('other', 'undefined _%d' % local, fields, (bb, idx))]
     for (db, dk, kind, st) in defs:
+        if kind == 'entry':
+            if 1 <= local <= body.arg_count:
+                if body.kind == 'closure' and local == 1:
+                    roots.append(Root('upvar', fields[0] if fields else '<env>', fields[1:], (bb, idx)))
+                else:
+                    roots.append(Root('param', body.name_of(local), fields, (bb, idx)))
+            continue
         if kind == 'call':
             c = Call(body, db, st)
             if st['dest'][1]:
